@@ -25,6 +25,7 @@ import (
 // directory.
 
 type c15Case struct {
+	Other string `json:"other,omitempty"` // the second declared name (default good.bin / good2.bin): sets ALL of whose names share a leading component, e.g. the name of the directory the index file lies in
 	Fmt      string `json:"fmt"`                // p2, p1, create
 	Name     string `json:"name"`               // the hostile declared name (or input path spelling for create)
 	Pos      int    `json:"pos"`                // position of the hostile entry in the 2-file set
@@ -125,6 +126,16 @@ func c15Gen(g *core.Gen) {
 					if diskSet[n] || len(n) < 9 || (g.Thorough() && len(n) < 12) {
 						g.Emit(&c15Case{Fmt: f, Name: n, Pos: pos, Disk: true, Dmg: dmg})
 					}
+				}
+			}
+		}
+		// every declared name begins with the name of the directory the index file lies in (a set made one level
+		// further up), and one of them climbs back out through it
+		for _, n := range []string{"arch/../x", "arch/../../x", "arch/sub/../../x", "arch/./../x", "arch/..", "arch/../arch/f", "arch/../arch2/z", "arch/../outside/x", "arch/f", "arch/arch/../f"} {
+			for pos := 0; pos < 2; pos++ {
+				for _, dmg := range []bool{false, true} {
+					g.Emit(&c15Case{Fmt: f, Name: n, Other: "arch/ok.bin", Pos: pos, Dmg: dmg})
+					g.Emit(&c15Case{Fmt: f, Name: n, Other: "arch/ok.bin", Pos: pos, Dmg: dmg, Disk: true})
 				}
 			}
 		}
@@ -280,6 +291,9 @@ func c15Run(ci interface{}, r *core.Rec) {
 		hostile = root + "/" + c.Name
 	}
 	names := []string{"good.bin", "good2.bin"}
+	if c.Other != "" {
+		names[1-c.Pos] = c.Other
+	}
 	names[c.Pos] = hostile
 	if c.Uni {
 		names[c.Pos] = "plain.bin"
